@@ -23,7 +23,16 @@ FUNCTIONS = loop.FUNCTIONS + ["pygradflow/display.py:StateData, Display.row, Att
 
 def shared(E, shape):
     """the environment both runs see: problem, tolerances, start point"""
-    user, spec = common.make_problem(E, shape.get("vars", ["boxed"]), shape.get("cons", []), fmt=shape.get("fmt", "coo"))
+    pf = None
+    if shape.get("point_faults"):
+        # the objective / constraints may be non-finite at some points (a function of the point, so
+        # both runs see the same failures); the step oracle's contract keeps accepted candidates finite
+        def pf(kind, xs):
+            if kind in ("obj", "cons"):
+                return E.ufb("BAD_" + kind, *xs)
+            return False
+
+    user, spec = common.make_problem(E, shape.get("vars", ["boxed"]), shape.get("cons", []), fmt=shape.get("fmt", "coo"), point_faults=pf)
     kw = dict(
         opt_tol=E.real("opt_tol", lo=0, lo_strict=True),
         active_tol=E.real("active_tol", lo=0),
@@ -38,7 +47,7 @@ def shared(E, shape):
         E.assume(land(spec["xl"][j] <= v, v <= spec["xu"][j]))
         x0.append(v)
     y0 = [E.real(f"y0_{i}") for i in range(spec["m"])]
-    return types.SimpleNamespace(E=E, user=user, spec=spec, kw=kw, x0=x0, y0=y0, pol=shape.get("policy", "DualNorm"), K=shape["K"])
+    return types.SimpleNamespace(E=E, user=user, spec=spec, kw=kw, x0=x0, y0=y0, pol=shape.get("policy", "DualNorm"), K=shape["K"], point_faults=bool(shape.get("point_faults")))
 
 
 def solve_once(env, tag, overrides, script=None, solver=None, observers=None):
@@ -64,7 +73,11 @@ def solve_once(env, tag, overrides, script=None, solver=None, observers=None):
     lb, ub = items(prob.var_lb), items(prob.var_ub)
     run = types.SimpleNamespace(tag=tag, trials=[], cbs=[], clock=clock, spy=spy, params=params, solver=solver, res=None, exc=None, start=None, beyond=False, lb=lb, ub=ub)
 
+    run.controller_state = None
+
     def oracle(controller, iterate, rho, dt, display, timer):
+        if run.controller_state is None:
+            run.controller_state = object_state(controller)  # memory of the step controller when the solve starts
         k = len(run.trials)
         if script is None:
             if k >= env.K:
@@ -93,6 +106,11 @@ def solve_once(env, tag, overrides, script=None, solver=None, observers=None):
             out = script[k]["out"]
         xs, ys, lam, rec, accb = out
         nxt = Iterate(prob, params, arr(xs), arr(ys), iterate.eval)
+        if accb and env.point_faults:
+            try:
+                nxt.check_eval()  # compute_step only accepts candidates it evaluated successfully
+            except boot.mod("eval").EvalError:
+                raise Abort()
         run.trials.append(dict(it=iterate, x=items(iterate.x), y=items(iterate.y), rho=rho, dt=dt, out=out, nxt=nxt, acc=accb, display=display, checked_before=(clock.reads[-1] if clock.reads else None)))
         return SCR(nxt, lam, None, None, accb)
 
@@ -120,6 +138,8 @@ def solve_once(env, tag, overrides, script=None, solver=None, observers=None):
     except Exception as e:
         if "Inverse step size" in str(e) and type(e) is Exception:
             run.exc = "lamb_max"
+        elif "Failed to evaluate initial iterate" in str(e) and type(e) is Exception and env.point_faults:
+            run.exc = "initial_point"
         else:
             raise
     finally:
@@ -129,6 +149,24 @@ def solve_once(env, tag, overrides, script=None, solver=None, observers=None):
         except AttributeError:
             pass
     return run
+
+
+def object_state(obj, depth=0, seen=None, prefix=""):
+    """flat list of (path, scalar) for the scalar attributes reachable from obj through objects
+    defined in pygradflow (problem / params / evaluator references are configuration, not memory)"""
+    seen = seen if seen is not None else set()
+    out = []
+    if id(obj) in seen or depth > 4 or not hasattr(obj, "__dict__"):
+        return out
+    seen.add(id(obj))
+    for k, v in sorted(vars(obj).items()):
+        if k in ("problem", "params", "settings", "eval", "display", "res_func", "method"):
+            continue
+        if isinstance(v, (int, float, bool)) or core.is_sym(v):
+            out.append((prefix + k, v))
+        elif type(v).__module__.startswith("pygradflow"):
+            out += object_state(v, depth + 1, seen, prefix + k + ".")
+    return out
 
 
 def same_trial(a, b):
@@ -167,6 +205,15 @@ def h_repeat(E, shape):
     compare_runs(E, env, A, B, "C10.same_solver.")
     C = solve_once(env, "c", lim, script=A.trials)
     compare_runs(E, env, A, C, "C10.fresh_solver.")
+    # the step controller (stubbed out by the oracle, so its memory cannot show in the trials)
+    # starts every solve in the same state: step size, PI-controller sums, ...
+    for X, nm in ((B, "same_solver"), (C, "fresh_solver")):
+        sa, sx = A.controller_state or [], X.controller_state or []
+        ok = len(sa) == len(sx)
+        if ok:
+            for (ka, va), (kx, vx) in zip(sa, sx):
+                ok = land(ok, ka == kx, va == vx)
+        E.prove(ok, f"C10.{nm}.step_controller_starts_in_the_same_state")
     same = all((vars(A.params)[k] is v) or (not core.is_sym(v) and vars(A.params)[k] == v) for k, v in snap.items())
     E.prove(same, "C10.params_object_not_modified")
 
@@ -236,7 +283,7 @@ def h_observe(E, shape):
     obs = dict(callbacks=True, debug=shape.get("level", "DEBUG"))
     B = solve_once(env, "b", dict(iteration_limit=env.K, display_interval=di, collect_path=True), script=A.trials, observers=obs)
     compare_runs(E, env, A, B, "C09.")
-    E.prove(len(B.cbs) == len(B.trials) - (1 if B.exc else 0), "C09.callbacks_see_every_trial")
+    E.prove(len(B.cbs) == len(B.trials) - (1 if B.exc == "lamb_max" else 0), "C09.callbacks_see_every_trial")
     if B.res is not None and B.trials:
         E.reach("C09.displayed_and_undisplayed_rows")
 
@@ -277,7 +324,7 @@ def h_repeat_l2(E, shape):
             if state["script"] is None:
                 if k >= max_solves:
                     raise Abort()
-                fail = bool(E.fresh_bool("solve_fails"))
+                fail = bool(E.fresh_bool("solve_fails")) if shape.get("faults", False) else False
                 out = ("fail",) if fail else ([E.fresh_real("dx") for _ in range(n)], [E.fresh_real("dy") for _ in range(m)])
             else:
                 if k >= len(state["script"]):
@@ -305,6 +352,12 @@ def h_repeat_l2(E, shape):
         E.assume(land(spec["xl"][j] <= v, v <= spec["xu"][j]))
         x0.append(v)
     y0 = [E.real(f"y0_{i}") for i in range(m)]
+    Status = boot.mod("status").SolverStatus
+
+    def only_limit(iterate, iteration, timer):
+        # the termination tests are covered by the L1 composition; here only the budget ends a solve
+        return Status.IterationLimit if iteration >= K else None
+
     runs = []
     for tag in ("a", "b"):
         run = dict(made=[], solves=[], beyond=False, res=None, exc=None)
@@ -312,6 +365,7 @@ def h_repeat_l2(E, shape):
         state["script"] = None if tag == "a" else runs[0]["solves"]
         if tag == "b" and shape.get("fresh_solver"):
             solver = S.Solver(user, params)
+        solver._check_terminate = only_limit
         try:
             run["res"] = solver.solve(arr(x0), arr(y0) if m else None)
         except Exception as e:
